@@ -16,7 +16,16 @@ S(s) == Str(s)
 Deltas == { Z, FromInt(-1), Neg(Mega), Mega }
 Boundaries == { Add(Join(DaysFromCivil(y, m, 1), 0, 0), dl) : y \in YEARS, m \in 1..12, dl \in Deltas }
               \cup { Join(DaysFromCivil(y, 2, 28), 43200, 0) : y \in YEARS } \cup { Join(DaysFromCivil(y, 12, 31), 86399, 999999) : y \in YEARS }
-Instants == { x \in Boundaries : InTs(x) }
+\* daylight-saving transitions of 2021 and 2024 (New York, Paris, Sydney): the instant itself, one second / one hour to either side, and the
+\* stretch of the zone's own offset before and after it (where a computation that looks the offset up with local time goes wrong)
+DstYears == {2021, 2024}
+Transitions == UNION { { Join(NthSunday(y, 3, 2), 7 * 3600, 0), Join(NthSunday(y, 11, 1), 6 * 3600, 0), Join(LastSunday31(y, 3), 3600, 0), Join(LastSunday31(y, 10), 3600, 0),
+                         Join(NthSunday(y, 4, 1) - 1, 16 * 3600, 0), Join(NthSunday(y, 10, 1) - 1, 16 * 3600, 0) } : y \in DstYears }
+Hour == Mul(FromInt(3600), Mega)
+DstDeltas == { Z, Neg(Mega), Mega, Hour, Neg(Hour), Mul(FromInt(-2), Hour), Mul(FromInt(2), Hour), Mul(FromInt(-5), Hour), Mul(FromInt(5), Hour), Mul(FromInt(-10), Hour), Mul(FromInt(10), Hour),
+               Add(Mul(FromInt(-3), Hour), Mul(FromInt(1800), Mega)), Add(Mul(FromInt(3), Hour), Mul(FromInt(1800), Mega)) }
+DstInstants == { Add(t, dl) : t \in Transitions, dl \in DstDeltas }
+Instants == { x \in Boundaries \cup DstInstants : InTs(x) }
 OffText(o) == LET a == IF o < 0 THEN -o ELSE o IN <<(IF o < 0 THEN 45 ELSE 43)>> \o Pad(a \div 60, 2) \o <<58>> \o Pad(a % 60, 2)
 Zones == { OffText(o) : o \in OFFSETS } \cup { Z_UTC, Z_Kolkata, Z_Tokyo, Z_Kathmandu, Z_Phoenix, Z_NewYork, Z_Paris, Z_Sydney }
 AccNames == <<"getFullYear", "getMonth", "getDate", "getDayOfMonth", "getDayOfYear", "getDayOfWeek", "getHours", "getMinutes", "getSeconds", "getMilliseconds">>
